@@ -9,7 +9,7 @@ use serde_json::{json, Value};
 pub const DEF: PropDef = PropDef {
     id: "C18",
     level: "exploration",
-    rule: "every assignment form (put..into, let..be, compound let, `T is <expr>`, `T is <poetic words>`, `T says`, rock T with E, rock T with a list, rock T like, rock T) x 5 targets (simple / common / proper name, pronoun, subscript) x 75 + 235 right-hand sides (number literals of every size: 1..25 digits, 2^k and neighbours, fractions of 1..20 digits, exponents to overflow, leading zeros; 0, 5, 10, 100, 105.25, 0.5, 1e21, 0.1 plus 0.2, a folding list, 0 - 5, -5, 1 over 0, 0 over 0, strings: empty, spaces, punctuation, a line break in the middle / at the end / at the start / alone / doubled, blanks at either end, tab, non-ASCII, token look-alikes, keyword-empty, 63 / 64 / 65 / 128 / 257 bytes long, long multi-byte texts at odd and even offsets; non-constants: variable, call, roll, boolean, null, mixed, string concatenation, not) x 15 positions (top level, if, else, until (also nested with while and if), else after an empty then-block (also nested and in a loop), loop, function, depth 3, after a multi-line comment, after a two-line string, last line without newline); second family: all sequences of 2..3 of 24 one-line statements (7 with a due diagnostic, 17 without, covering every statement shape the pass has an arm for): the reported lines are exactly the due lines; oracle: a diagnostic is due exactly when the reference predicate (ordinary expression folding to one numeric constant, or plain string literal for assignments, not compound) holds; its line is the statement's line; it quotes the value and (plain variables) the target; the starred words of the suggestion spell the digits of the value; instantiating the stars gives a line that parses, runs and leaves the target with that value; values without poetic spelling get no starred / says suggestion; linting never panics; non-trivial = all cases; distinct = distinct text",
+    rule: "every assignment form (put..into, let..be, compound let, `T is <expr>`, `T is <poetic words>`, `T says`, rock T with E, rock T with a list, rock T like, rock T) x 5 targets (simple / common / proper name, pronoun, subscript) x 78 + 235 right-hand sides (number literals of every size: 1..25 digits, 2^k and neighbours, fractions of 1..20 digits, exponents to overflow, leading zeros; 0, 5, 10, 100, 105.25, 0.5, 1e21, 0.1 plus 0.2, a folding list, 0 - 5, -5, 1 over 0, 0 over 0, strings: empty, spaces, punctuation, a line break in the middle / at the end / at the start / alone / doubled, blanks at either end, tab, non-ASCII, token look-alikes, keyword-empty, 63 / 64 / 65 / 128 / 257 bytes long, long multi-byte texts at odd and even offsets; non-constants: variable, call, roll, boolean, null, mixed, string concatenation, not over numbers and over string literals) x 15 positions (top level, if, else, until (also nested with while and if), else after an empty then-block (also nested and in a loop), loop, function, depth 3, after a multi-line comment, after a two-line string, last line without newline); second family: all sequences of 2..3 of 24 one-line statements (7 with a due diagnostic, 17 without, covering every statement shape the pass has an arm for): the reported lines are exactly the due lines; oracle: a diagnostic is due exactly when the reference predicate (ordinary expression folding to one numeric constant, or plain string literal for assignments, not compound) holds; its line is the statement's line; it quotes the value and (plain variables) the target; the starred words of the suggestion spell the digits of the value; instantiating the stars gives a line that parses, runs and leaves the target with that value; values without poetic spelling get no starred / says suggestion; linting never panics; non-trivial = all cases; distinct = distinct text",
     assumptions: &["reference predicate and constant value computed on the position-free tree with the reference interpreter", "round-trip tolerance: 4 ulp up to 7 digits, 64 ulp for longer numerals (the rounding of poetic literals)"],
     build,
     exhaustive: true,
@@ -22,6 +22,8 @@ pub const RHS: &[&str] = &[
     "fun taking 1", "roll y", "roll 5", "5 at 0", "roll \"s\"", "0.1 plus 0.2, 0.3", "0.1 times 0.2, 0.3", "1e308 times 10, 0.1", "0.1 plus 0.1 times 0.1", "3 over 5", "5 over 3", "49 over 49", "7 over 10", "1 over 49 times 49", "0.1 times 3", "not not 5", "- - 5", "- not 5", "true", "null", "1 plus y", "\"a\" plus \"b\"", "not 1",
     // strings: a line break at the end, at the start, alone, doubled; blanks at either end; a tab; non-ASCII; look-alikes of other tokens
     "\"a\n\"", "\"\n\"", "\"\na\"", "\"a\n\nb\"", "\" a\"", "\"a \"", "\"a\tb\"", "\"é😀\"", "\"5\"", "\"says x\"", "\"it's\"", "\"true\"",
+    // a unary operator over a string literal is not a plain literal
+    "not \"abc\"", "not not \"a b\"", "not \"\"",
     // long string literals (ASCII lengths around 64 / 128 / 256; multi-byte text at odd and even offsets)
     "\"abcdefghi abcdefghi abcdefghi abcdefghi abcdefghi abcdefghi abc\"", "\"abcdefghi abcdefghi abcdefghi abcdefghi abcdefghi abcdefghi abcd\"", "\"abcdefghi abcdefghi abcdefghi abcdefghi abcdefghi abcdefghi abcde\"", "\"abcdefghi abcdefghi abcdefghi abcdefghi abcdefghi abcdefghi abcdefghi abcdefghi abcdefghi abcdefghi abcdefghi abcdefghi abcdefgh\"", "\"abcdefghi abcdefghi abcdefghi abcdefghi abcdefghi abcdefghi abcdefghi abcdefghi abcdefghi abcdefghi abcdefghi abcdefghi abcdefghi abcdefghi abcdefghi abcdefghi abcdefghi abcdefghi abcdefghi abcdefghi abcdefghi abcdefghi abcdefghi abcdefghi abcdefghi abcdefg\"", "\"aéééééééééééééééééééééééééééééééééééééééé\"", "\"éééééééééééééééééééééééééééééééééééééééééééééééééééééééééééééééééééééé\"", "\"ab😀😀😀😀😀😀😀😀😀😀😀😀😀😀😀😀😀😀😀😀😀😀😀😀😀😀😀😀😀😀😀😀😀😀😀😀😀😀😀😀😀😀😀😀😀😀😀😀😀😀😀😀😀😀😀😀😀😀😀😀😀😀😀😀😀😀😀😀😀😀\"",
 ];
